@@ -53,9 +53,28 @@ func runC12(c *eng.Ctx) {
 		scriptSeed := rng.Int63()
 		build := func(cfs []rt.CloseFault) *core.Run {
 			r := core.NewRun(s, m, nil, cfs)
+			// Close callbacks take a little while, so that a Close that (wrongly) runs concurrently
+			// with its parent's cascade has a window to win
+			r.Rec.SetHook(func(hp rt.HookPoint) {
+				if hp.Where == "close" {
+					time.Sleep(time.Duration(30+hp.Inst%5*40) * time.Microsecond)
+				}
+			})
 			r.Build()
 			if r.Built {
-				core.GenScript(rand.New(rand.NewSource(scriptSeed)), r, 2+int(scriptSeed%3), 6+int(scriptSeed%7), 0)
+				srng := rand.New(rand.NewSource(scriptSeed))
+				core.GenScript(srng, r, 2+int(scriptSeed%3), 6+int(scriptSeed%7), 0)
+				// a fan of children whose contexts derive from the parent scope's own context
+				// (sub-operations of a request), each owning instances
+				if len(r.Scopes) > 1 && scriptSeed%2 == 0 {
+					parent := 1 + srng.Intn(len(r.Scopes)-1)
+					for i := 0; i < 3; i++ {
+						ch := r.Do(core.Op{Kind: core.OpCreate, Scope: parent, CtxKind: 4 + i%2})
+						if ch.NewScope > 0 {
+							core.ProbeRegistered(r, ch.NewScope)
+						}
+					}
+				}
 			}
 			return r
 		}
